@@ -63,7 +63,7 @@ func Main(args []string) int {
 			continue
 		}
 		jobs = append(jobs, j)
-		info[key] = servlab.C15Pkg{Key: key, Origin: it.ID, PerOp: r.N(2, 6), Muts: r.N(30, 300)}
+		info[key] = servlab.C15Pkg{Key: key, Origin: it.ID, PerOp: r.N(4, 8), Muts: r.N(100, 400)}
 	}
 	batch := 12
 	rejected := map[string]string{}
